@@ -53,6 +53,33 @@ func main() {
 		for _, fn := range e.fnList {
 			fmt.Println(pkgShort(fn.Pkg.Pkg) + "." + relName(fn))
 		}
+	case "check":
+		if len(os.Args) < 4 {
+			fmt.Println("usage: hv check <id> quick|thorough")
+			os.Exit(2)
+		}
+		tier := os.Args[3]
+		if t := os.Getenv("VERIF_TIER"); t == "quick" || t == "thorough" {
+			tier = t
+		}
+		seed := 0
+		fmt.Sscan(os.Getenv("VERIF_SEED"), &seed)
+		vd := os.Getenv("VERIF_DIR")
+		if vd == "" {
+			vd = "/verif"
+		}
+		code := RunCheck(os.Args[2], tier, seed, vd)
+		cleanupScratch()
+		os.Exit(code)
+	case "lock":
+		vd := os.Getenv("VERIF_DIR")
+		if vd == "" {
+			vd = "/verif"
+		}
+		if err := WriteLock(vd, os.Args[2:]); err != nil {
+			fmt.Println(err)
+			os.Exit(2)
+		}
 	case "verify":
 		fs := flag.NewFlagSet("verify", flag.ExitOnError)
 		mode := fs.String("mode", "seq", "seq|mon")
